@@ -256,6 +256,66 @@ func (e *env) runHop(name string, c hcase) map[string]interface{} {
 			}
 			fcl.Close()
 			races++
+		case "racegone":
+			// as race, but the request ends early because its client closes the connection while the answer is held
+			q := reqs[s.R]
+			if q == nil || q.arr == nil || q.epoch != e.epoch || q.poll() {
+				diverged++
+				continue
+			}
+			e.sched.Hold("us.recv.guard")
+			if !e.up.Reply(q.arr.Conn, q.arr.UID, q.tok, "ans") || !e.sched.AwaitArrive("us.recv.guard", e.w(0)) {
+				e.sched.Release("us.recv.guard")
+				diverged++
+				continue
+			}
+			gone := 0
+			for _, x := range reqs {
+				if x.cl == q.cl && !x.poll() {
+					gone++
+					x.got = true // abandoned: no reply is owed
+					x.arr = nil
+				}
+			}
+			mark := e.sched.Mark()
+			e.tr.Emit(vh.Ev{"ev": "cclose", "conn": q.cl.Name})
+			q.cl.Close()
+			for k, cl := range conns {
+				if cl == q.cl {
+					delete(conns, k)
+				}
+			}
+			// wait until the proxy has cleaned the abandoned streams
+			for dl := time.Now().Add(e.w(0)); time.Now().Before(dl); time.Sleep(time.Millisecond) {
+				n := 0
+				for _, ev := range e.sched.Events(mark) {
+					if ev.Name == "ds.clean" {
+						n++
+					}
+				}
+				if n >= gone {
+					break
+				}
+			}
+			fcl := e.dial()
+			fill := []*rq{}
+			for i := 0; i < 4; i++ {
+				f := &rq{tok: fmt.Sprintf("%s-g%d", name, i), cl: fcl, dsid: e.freshID(), epoch: e.epoch}
+				f.ch = fcl.Send(f.dsid, f.tok, "hold", longMs, false, false)
+				f.arr = e.up.WaitArrival(f.tok, e.w(0), f.poll)
+				fill = append(fill, f)
+			}
+			e.sched.Release("us.recv.guard")
+			for _, f := range fill {
+				if f.arr != nil && !f.poll() {
+					e.up.Reply(f.arr.Conn, f.arr.UID, f.tok, "ans")
+				}
+			}
+			for _, f := range fill {
+				f.wait(e.w(0))
+			}
+			fcl.Close()
+			races++
 		case "tmo":
 			if q := reqs[s.R]; q != nil {
 				q.wait(e.w(shortMs * time.Millisecond))
